@@ -1,17 +1,17 @@
-\* C11 thorough: mode owr
+\* growth: status machine, LastError, reconnect / back-off: two injected faults (scan, stage, transition, dial of either endpoint), one timer may fire
 CONSTANTS
- Mixes <- MixesC11q
+ Mixes <- MixesStatus
  StartPaused = {FALSE}
- Mode = "owr"
+ Mode = "tws"
  InitTree <- D2
  InitArchive <- D2
- EditVals <- EditsC11
- EditSides = {"alpha", "beta"}
+ EditVals <- EditsC29
+ EditSides = {"alpha"}
  EventSides = {"alpha"}
  MaxEdits = 1
  MaxEvents = 1
- MaxFaults = 0
- MaxTicks = 0
+ MaxFaults = 2
+ MaxTicks = 1
  Export = FALSE
  RunToBlock = FALSE
  Mut = "none"
